@@ -72,14 +72,26 @@ def main():
         dropped = R.dropped()
         if dropped:
             fails.append(("send:recipient-dropped", dict(obj, dropped=[x.decode("latin1") for x in dropped]), len(R.history)))
-        if not crashed:
-            for s, rc in R.accepted:
-                for r in set(rc):
-                    nk = sum(1 for c in R.cmds if c["rcpt"] == r and c["verdict"] and c["verdict"][:1] == b"K")
-                    if nk > rc.count(r):
-                        fails.append(("send:delivered-twice-without-crash", dict(obj, recipient=r.decode("latin1"), k_reports=nk), len(R.history)))
+        # exactly once: within one daemon generation (no crash in between) a recipient is never reported delivered twice
+        for g in set(c["gen"] for c in R.cmds):
+            seen_k = {}
+            for c in R.cmds:
+                if c["gen"] == g and c["verdict"] and c["verdict"][:1] == b"K":
+                    seen_k[(c["n"], c["rcpt"])] = seen_k.get((c["n"], c["rcpt"]), 0) + 1
+            for (n, r), k in seen_k.items():
+                mult = max(1, sum(rc.count(r) for s_, rc in R.accepted))
+                if k > mult:
+                    fails.append(("send:delivered-twice-without-crash", dict(obj, recipient=r.decode("latin1"), msg=n, k_reports=k, generation=g), len(R.history)))
     # a crash inside todo_do (info/local written, todo still there), restart: nothing already delivered may be delivered again
     def judge(W, R, T, k):
+        # the crash came before any delivery attempt, so nothing excuses a second delivery after the restart
+        cnt = {}
+        for c in R.cmds:
+            if c["verdict"] and c["verdict"][:1] == b"K": cnt[(c["n"], c["rcpt"])] = cnt.get((c["n"], c["rcpt"]), 0) + 1
+        for (n, r), kk in cnt.items():
+            if kk > 1:
+                fails.append(("send:delivered-twice-without-crash", dict(kind="history", scenario="SIGKILL before mutating call %d of qmail-send (inside todo_do, before any delivery), restart" % k,
+                              history=R.history[-40:], recipient=r.decode("latin1"), msg=n, k_reports=kk), k))
         bad = qc.retried_after_mark(T.events)
         if bad:
             fails.append(("send:finished-recipient-retried", dict(kind="history", scenario="SIGKILL before mutating call %d of qmail-send (inside todo_do), restart" % k, history=R.history[-40:],
